@@ -183,7 +183,7 @@ func skolemizeOnce(g *Term) (*Term, []*Term) {
 	return r, sks
 }
 
-const maxInstances = 240
+const maxInstances = 800
 
 // instances returns instantiations of the quantified assumptions among facts.
 func instances(facts []*Term, goal *Term, extra []*Term, also ...*Term) []*Term {
@@ -224,8 +224,8 @@ func instances(facts []*Term, goal *Term, extra []*Term, also ...*Term) []*Term 
 		}
 		return cl[i].id > cl[j].id
 	})
-	if len(cl) > 20 {
-		cl = cl[:20]
+	if len(cl) > 28 {
+		cl = cl[:28]
 	}
 	var out []*Term
 	dedup := map[*Term]bool{}
@@ -381,7 +381,7 @@ func groundTerms(ts []*Term, idx map[string][]*Term, seen map[*Term]bool, defs m
 	}
 }
 
-const maxGroundInstances = 600
+const maxGroundInstances = 4000
 
 // groundFacts returns the quantifier-free replacement of facts for goal.
 // skolemizeFact replaces existential quantifiers of an assumed formula (universal quantifiers in
@@ -497,7 +497,7 @@ func groundFacts(facts []*Term, goal *Term, extra []*Term) ([]*Term, []*Term) {
 			// every combination: one positive quantifier at a time, each with every skolem
 			var expand func(t *Term, depth int)
 			expand = func(t *Term, depth int) {
-				if depth > 3 || len(second) > 400 {
+				if depth > 3 || len(second) > 1500 {
 					return
 				}
 				for _, sk := range extra {
